@@ -1082,6 +1082,8 @@ def ref_binop(ctx, op, a, b):
     if isinstance(op, ast.Add):
         if isinstance(a, Ref) and a.kind == "list" and isinstance(b, Ref) and b.kind == "list":
             return ctx.alloc("list", init={"v": list(ctx.st(a)["v"]) + list(ctx.st(b)["v"])})
+        if isinstance(a, Ref) and a.kind == "deque" and isinstance(b, Ref) and b.kind == "deque":
+            return ctx.alloc("deque", init={"v": list(ctx.st(a)["v"]) + list(ctx.st(b)["v"])})      # a NEW deque object
         ta, tb = as_text(ctx, a), as_text(ctx, b)
         if ty_of(ta) == "bytes" and ty_of(tb) == "bytes":
             v = E.binop(ctx, op, ta, tb)
